@@ -27,9 +27,16 @@ PROBES = ["x", "y/z"]
 def base_config(perm, dup=0):
     """dup=1/2: a second base ruleset that is also called r1 (own plugins b3.*, opposite permissions), right after the first
     or at the end; docs/drop_in_configs.md: 'If there is more than one match, the first base ruleset will be chosen'"""
+    scoped = 0
+    if len(perm) == 8:
+        perm, scoped = perm[:7], perm[7]
     if len(perm) == 7:
         perm, dup = perm[:6], perm[6]
     cfg = base_config0(perm)
+    if scoped:
+        # r2 (and with it every drop-in copy of r2) is a ruleset-level cgroup ruleset with exactly one matching cgroup (y/z):
+        # the tick order is the same, but enabling / disabling has to reach the per-cgroup instance
+        cfg["rulesets"][1]["cgroup"] = "y/*"
     if dup:
         d1, a1, dis1 = perm[:3]
         twin = {"name": "r1", "drop-in": {"detectors": not d1, "actions": not a1, "disable-on-drop-in": not dis1}, "post_action_delay": "0",
@@ -66,6 +73,9 @@ def variant(tag, k, n):
     if k == 4:
         return {"rulesets": [], "prekill_hooks": [H("1", "x"), H("2", "/")]}
     if k == 5:
+        if n % 2 == 0:
+            # unknown target after one (two) that resolve: the file is refused as a whole all the same
+            return {"rulesets": ([rs("r1", dets=D("3"))] if n % 4 == 0 else []) + [rs("r2", acts=A("2")), rs("nope", acts=A("1"))]}
         return {"rulesets": [rs("nope", acts=A("1"))]}  # unknown target
     if k == 6:
         return {"rulesets": [rs("r2", acts=A("1")), rs("r1", dets=[["dg", {"name": "no_such_plugin", "args": {}}]])], "prekill_hooks": [H("1", "/")]}
@@ -248,7 +258,7 @@ def sequences(seed, tier):
     perms = list(itertools.product([True, False], repeat=6))
     res = [(seq, perms[(i * 7 + 3) % 64] if i % 3 else (True, True, i % 2 == 0, False, True, i % 4 == 0)) for i, seq in enumerate(out)]
     # every fifth sequence runs against a base config with two rulesets named r1 (7th element: where the twin sits)
-    return [(seq, perm + ((1 + i // 5 % 2,) if i % 5 == 4 else (0,))) for i, (seq, perm) in enumerate(res)]
+    return [(seq, perm + ((1 + i // 5 % 2,) if i % 5 == 4 else (0,)) + ((1,) if i % 4 == 1 else (0,))) for i, (seq, perm) in enumerate(res)]
 
 
 def is_ghost(seq):
@@ -307,6 +317,9 @@ def judge(case, results):
             v.bad("crash:" + ck[0], ck[1], "sequence %s perms %s\n%s" % (seq, perm, ck[2]))
             i += 1
             continue
+        # with a ruleset-level cgroup on r2 the prerun positions are those of per-cgroup instances (template plugins are prerun too,
+        # a new instance is prerun when it is created): C11's business. Here the run order - who is active - is judged.
+        vw = (lambda t: [x for x in t if x.startswith("run:")]) if perm[7] else (lambda t: t)
         if not meta_only:
             nseq += 1
             m = Model(base, ghost=is_ghost(seq))
@@ -332,13 +345,13 @@ def judge(case, results):
                     if (st["sched"] is True) != ok:
                         v.bad("add-accepted-mismatch", "", "seq %s perms %s step %d: scheduleDropInAdd=%s, model says %s (%s)" % (seq, perm, si, st["sched"], ok, op["_cfg"]))
                         break
-                    if not ok and not pending_deferred and (st["tick"] != prev["tick"] or st["hooks"] != prev["hooks"] or st["added"] != prev["added"]):
+                    if not ok and not pending_deferred and (vw(st["tick"]) != vw(prev["tick"]) or st["hooks"] != prev["hooks"] or st["added"] != prev["added"]):
                         v.bad("refused-add-left-something", "", "seq %s perms %s step %d: refused add changed the engine: %s -> %s" % (seq, perm, si, strip_inst(prev["tick"]), strip_inst(st["tick"])))
                         break
                 else:
                     m.remove(op["tag"])
-                want = m.tick()
-                got = strip_inst(st["tick"])
+                want = vw(m.tick())
+                got = vw(strip_inst(st["tick"]))
                 if got != want:
                     v.bad("evaluation-order", "", "seq %s perms %s after step %d (%s %s): tick order\n   got  %s\n   want %s" % (seq, perm, si, op["op"], op["tag"], got, want))
                     break
@@ -355,7 +368,7 @@ def judge(case, results):
                     pid_, inst = x.split("#")[0].split(":")[1], x.split("#")[1]
                     seen.setdefault(pid_, set()).add(inst)
                 for pid_, insts in seen.items():
-                    if pid_ in base_insts and m.enabled(m.owner[pid_]) and base_insts[pid_] not in insts:
+                    if pid_ in base_insts and m.enabled(m.owner[pid_]) and base_insts[pid_] not in insts and not (perm[7] and pid_.startswith("b2.")):
                         v.bad("base-instance-replaced", "", "seq %s step %d: base plugin %s no longer runs with its own instance" % (seq, si, pid_))
                 if m.added() >= 2:
                     multi += 1
@@ -363,6 +376,7 @@ def judge(case, results):
                 pending_deferred = False
             v.count("adds_refused_by_engine", m.engine_refused)
             v.count("sequences_with_duplicate_base_name", 1 if perm[6] else 0)
+            v.count("sequences_with_ruleset_level_cgroup_base", 1 if perm[7] else 0)
             i += 1
         else:
             a2, crash2 = ans[i + 1]
@@ -370,7 +384,7 @@ def judge(case, results):
                 f1, f2 = a["steps"][-1], a2["steps"][-1]
                 # ids embed a per-sequence counter; compare with the counter erased
                 import re
-                norm = lambda t: [re.sub(r"^(prerun|run):([abc])\d+\.", r"\1:\2.", x) for x in strip_inst(t)]
+                norm = lambda t: [re.sub(r"^(prerun|run):([abc])\d+\.", r"\1:\2.", x) for x in vw(strip_inst(t))]
                 if norm(f1["tick"]) != norm(f2["tick"]) or f1["added"] != f2["added"] or [re.sub(r"\d+\.", ".", h) for h in f1["hooks"].values()] != [re.sub(r"\d+\.", ".", h) for h in f2["hooks"].values()]:
                     v.bad("not-reversible", "", "seq %s perms %s: after removing a tag the engine differs from the same sequence without that tag:\n   with+remove %s added=%s\n   without     %s added=%s" % (
                         seq, perm, norm(f1["tick"]), f1["added"], norm(f2["tick"]), f2["added"]))
